@@ -32,6 +32,33 @@
 //	         (a transient error: the bytes of the refused call are lost)
 //	close    every Write succeeds, Close returns an error
 //
+// Transient faults (the stream refuses for a while and then works again, what a
+// descriptor switched to non-blocking mode or a write interrupted by a signal
+// gives; nothing the stream accepted is ever lost or repeated by the stream):
+//
+//	tshort   the Write call that would store the byte of offset k accepts the bytes
+//	         below k and returns (n < len(p), error); the next -repeat - 1 Write
+//	         calls accept -step bytes (fewer than offered) and return an error too;
+//	         every later call succeeds
+//	terronly same, the first failing call accepts nothing: (0, error)
+//	shortnil that Write call accepts max(1, k - accepted) bytes and returns
+//	         (n < len(p), nil) once: a short write without an error (calls of one
+//	         byte cannot be cut short and are accepted whole)
+//
+// -errno eagain|eintr select the errno of a transient error; -rawerrno hands the
+// bare syscall.Errno value back instead of an *fs.PathError around it.
+//
+//	faultcmd -nbexec CAP DELAYMS PAUSEMS command args...
+//
+// runs the command with its standard output on a pipe of capacity CAP created in
+// blocking mode; once the first bytes have arrived (the command has therefore set
+// up its standard output long ago) the O_NONBLOCK flag is set on the write end
+// through faultcmd's own copy of the descriptor (what ssh, node or a job scheduler
+// sharing the pipe do), faultcmd waits DELAYMS, then reads the pipe 4 KiB at a time
+// with PAUSEMS between reads up to the end of the stream.  Everything received is
+// copied to the standard output; "FAULTCMD nbexec ..." on stderr gives the exit
+// status of the command, which is also the exit status of faultcmd.
+//
 // With -errno epipe|enospc|eio|edquot|efbig the injected error is what the
 // operating system would hand back for a file: an *fs.PathError wrapping the
 // errno (errors.Is(err, syscall.EPIPE) holds, etc.) instead of a private value.
@@ -64,12 +91,14 @@ import (
 	"io"
 	"io/fs"
 	"os"
+	"os/exec"
 	"os/signal"
 	"runtime"
 	"strconv"
 	"strings"
 	"sync"
 	"syscall"
+	"time"
 
 	log "github.com/sirupsen/logrus"
 
@@ -87,6 +116,8 @@ var errnos = map[string]syscall.Errno{
 	"eio":    syscall.EIO,
 	"edquot": syscall.EDQUOT,
 	"efbig":  syscall.EFBIG,
+	"eagain": syscall.EAGAIN,
+	"eintr":  syscall.EINTR,
 }
 
 // limitFileSize makes write(2) on regular files fail with EFBIG beyond n bytes.
@@ -136,6 +167,10 @@ type stream struct {
 	fired    bool  // once: the single failure has happened
 	hits     int
 	closes   int
+	// transient kinds
+	repeat int // number of consecutive failing calls
+	step   int // bytes accepted by the 2nd.. failing call
+	left   int // failing calls still to come once the first one has happened
 }
 
 func (s *stream) say(format string, a ...any) {
@@ -198,6 +233,37 @@ func (s *stream) Write(p []byte) (int, error) {
 			s.hits++
 			s.say("hit kind=once k=%d call_len=%d call_accepted=0 accepted=%d", s.k, len(p), s.accepted)
 			return 0, errInjected
+		}
+	case "tshort", "terronly":
+		if s.fired && s.left > 0 {
+			s.left--
+			n := min(s.step, len(p)-1)
+			s.accept(p[:n])
+			s.hits++
+			s.say("hit kind=%s k=%d repeated call_len=%d call_accepted=%d accepted=%d err=%v", s.kind, s.k, len(p), n, s.accepted, errInjected)
+			return n, errInjected
+		}
+		if !s.fired && s.accepted+int64(len(p)) > s.k {
+			s.fired = true
+			s.left = s.repeat - 1
+			n := 0
+			if s.kind == "tshort" {
+				n = int(s.k - s.accepted)
+				s.accept(p[:n])
+			}
+			s.hits++
+			s.say("hit kind=%s k=%d call_len=%d call_accepted=%d accepted=%d err=%v", s.kind, s.k, len(p), n, s.accepted, errInjected)
+			return n, errInjected
+		}
+	case "shortnil":
+		if !s.fired && s.accepted+int64(len(p)) > s.k {
+			n := max(1, int(s.k-s.accepted))
+			if n < len(p) {
+				s.fired = true
+				s.accept(p[:n])
+				s.say("shortnil k=%d call_len=%d call_accepted=%d accepted=%d", s.k, len(p), n, s.accepted)
+				return n, nil
+			}
 		}
 	}
 	s.accept(p)
@@ -276,6 +342,78 @@ func usage(format string, a ...any) {
 	os.Exit(98)
 }
 
+// nbexec: see the package comment.
+func nbexec(capArg, delayArg, pauseArg string, command []string) {
+	capacity, err1 := strconv.Atoi(capArg)
+	delay, err2 := strconv.Atoi(delayArg)
+	pause, err3 := strconv.Atoi(pauseArg)
+	if err1 != nil || err2 != nil || err3 != nil || capacity < 0 || delay < 0 || pause < 0 {
+		usage("nbexec: bad numbers %q %q %q", capArg, delayArg, pauseArg)
+	}
+	var p [2]int
+	if err := syscall.Pipe(p[:]); err != nil { // blocking mode, as a shell creates it
+		usage("nbexec: pipe: %v", err)
+	}
+	syscall.CloseOnExec(p[0])
+	pr := os.NewFile(uintptr(p[0]), "nbexec-read-end")
+	pw := os.NewFile(uintptr(p[1]), "nbexec-write-end")
+	got := setPipeCap(pw, capacity)
+	cmd := exec.Command(command[0], command[1:]...)
+	cmd.Stdout = pw
+	cmd.Stderr = os.Stderr
+	if err := cmd.Start(); err != nil {
+		usage("nbexec: start %s: %v", command[0], err)
+	}
+	received := int64(0)
+	buf := make([]byte, 4096)
+	take := func() bool {
+		n, err := pr.Read(buf)
+		if n > 0 {
+			if _, werr := os.Stdout.Write(buf[:n]); werr != nil {
+				fmt.Fprintf(os.Stderr, "FAULTCMD infrastructure: cannot copy to stdout: %v\n", werr)
+				os.Exit(97)
+			}
+			received += int64(n)
+		}
+		return err == nil
+	}
+	// the first bytes: the command is running and has set up its standard output
+	more := take()
+	flags, _, errno := syscall.Syscall(syscall.SYS_FCNTL, pw.Fd(), syscall.F_GETFL, 0)
+	if errno == 0 {
+		_, _, errno = syscall.Syscall(syscall.SYS_FCNTL, pw.Fd(), syscall.F_SETFL, flags|syscall.O_NONBLOCK)
+	}
+	if errno != 0 {
+		usage("nbexec: fcntl: %v", errno)
+	}
+	pw.Close()
+	fmt.Fprintf(os.Stderr, "FAULTCMD nbexec nonblock_set_after=%d pipecap=%d\n", received, got)
+	time.Sleep(time.Duration(delay) * time.Millisecond)
+	for more {
+		more = take()
+		if pause > 0 {
+			time.Sleep(time.Duration(pause) * time.Millisecond)
+		}
+	}
+	pr.Close()
+	err := cmd.Wait()
+	status, sig := 0, 0
+	var ee *exec.ExitError
+	switch {
+	case err == nil:
+	case errors.As(err, &ee):
+		status = ee.ExitCode()
+		if ws, ok := ee.Sys().(syscall.WaitStatus); ok && ws.Signaled() {
+			sig = int(ws.Signal())
+			status = 128 + sig
+		}
+	default:
+		usage("nbexec: wait: %v", err)
+	}
+	fmt.Fprintf(os.Stderr, "FAULTCMD nbexec status=%d signal=%d received=%d\n", status, sig, received)
+	os.Exit(status)
+}
+
 func main() {
 	writer := flag.String("writer", "fasta", "fasta|fastq|json|csv")
 	sizesArg := flag.String("sizes", "1", "records per batch, comma separated")
@@ -284,10 +422,13 @@ func main() {
 	gz := flag.Bool("gzip", false, "compressed output")
 	closeFile := flag.Bool("close", false, "OptionCloseFile (otherwise OptionDontCloseFile)")
 	workers := flag.Int("workers", 1, "formatting workers")
-	fault := flag.String("fault", "none", "none|short|erronly|once|close")
+	fault := flag.String("fault", "none", "none|short|erronly|once|close|tshort|terronly|shortnil")
+	repeat := flag.Int("repeat", 1, "transient kinds: number of consecutive failing Write calls")
+	step := flag.Int("step", 0, "transient kinds: bytes accepted by the second and later failing calls")
+	rawErrno := flag.Bool("rawerrno", false, "with -errno: the injected error is the bare syscall.Errno")
 	k := flag.Int64("k", 0, "byte offset of the fault")
 	trace := flag.Bool("trace", false, "describe every Write call of the stream on stderr")
-	errnoArg := flag.String("errno", "", "epipe|enospc|eio|edquot|efbig: the injected error is an *fs.PathError wrapping this errno")
+	errnoArg := flag.String("errno", "", "epipe|enospc|eio|edquot|efbig|eagain|eintr: the injected error is an *fs.PathError wrapping this errno")
 	target := flag.String("target", "stream", "stream|file|tofile|stdout|pipe|fifo")
 	outPath := flag.String("out", "", "path of the output (targets file, tofile, fifo)")
 	fsize := flag.Int64("fsize", -1, "RLIMIT_FSIZE in bytes (-1 = unchanged)")
@@ -304,6 +445,9 @@ func main() {
 		err = syscall.Exec(os.Args[3], os.Args[3:], os.Environ())
 		usage("limitexec: exec %s: %v", os.Args[3], err)
 	}
+	if len(os.Args) > 5 && os.Args[1] == "-nbexec" {
+		nbexec(os.Args[2], os.Args[3], os.Args[4], os.Args[5:])
+	}
 	flag.Parse()
 
 	if *errnoArg != "" {
@@ -313,6 +457,9 @@ func main() {
 		}
 		errInjected = &fs.PathError{Op: "write", Path: "/faultcmd/injected.out", Err: e}
 		errClose = &fs.PathError{Op: "close", Path: "/faultcmd/injected.out", Err: e}
+		if *rawErrno {
+			errInjected, errClose = e, e
+		}
 	}
 	switch *target {
 	case "stream", "stdout", "pipe":
@@ -361,11 +508,15 @@ func main() {
 	}
 	switch *fault {
 	case "none", "short", "erronly", "once", "close":
+	case "tshort", "terronly", "shortnil":
+		if *repeat < 1 || *step < 0 {
+			usage("repeat must be >= 1 and step >= 0")
+		}
 	default:
 		usage("unknown fault kind %q", *fault)
 	}
 
-	out := &stream{kind: *fault, k: *k, trace: *trace}
+	out := &stream{kind: *fault, k: *k, trace: *trace, repeat: *repeat, step: *step}
 
 	// the source iterator: batches pushed in the requested arrival order
 	src := obiiter.MakeIBioSequence()
